@@ -180,17 +180,22 @@ func (r *R) Failed() int {
 	return n
 }
 
-func loadFindings() []finding {
+// loadFindings reads /verif/known_findings/<prop>.json (committed, read-only at
+// run time; absent file = no findings for that property).
+func loadFindings(prop string) []finding {
 	var f struct {
 		Findings []finding `json:"findings"`
 	}
-	b, err := os.ReadFile(filepath.Join(root, "known_findings.json"))
+	b, err := os.ReadFile(filepath.Join(root, "known_findings", prop+".json"))
+	if os.IsNotExist(err) {
+		return nil
+	}
 	if err != nil {
-		fmt.Fprintln(os.Stderr, "cannot read known_findings.json:", err)
+		fmt.Fprintln(os.Stderr, "cannot read known findings:", err)
 		os.Exit(2)
 	}
 	if err := json.Unmarshal(b, &f); err != nil {
-		fmt.Fprintln(os.Stderr, "known_findings.json:", err)
+		fmt.Fprintln(os.Stderr, "known findings:", err)
 		os.Exit(2)
 	}
 	return f.Findings
@@ -203,7 +208,7 @@ func (r *R) Finish(rule string, exhaustive bool) {
 		exhaustive = false
 	}
 	known := map[string]finding{}
-	for _, f := range loadFindings() {
+	for _, f := range loadFindings(r.Prop) {
 		if f.Property == r.Prop && f.Status == "known" {
 			known[f.Class] = f
 		}
